@@ -33,11 +33,57 @@ def main():
 
 
 def replay(prop, path):
-    """print a recorded violation (the replay file holds the complete concrete case) and re-run the property's quick check"""
+    """re-execute a recorded violation against the current working tree: exit 1 (with the VIOLATION line) if it still
+    reproduces, 0 if it does not"""
     import json
     d = json.load(open(path))
-    print("replay of %s: %s" % (path, d.get("message", "")[:2000]))
-    print(json.dumps(d.get("sig"), sort_keys=True))
+    sig, case = d.get("sig", {}), d.get("case", {})
+    print("replay of %s\n  recorded: %s" % (path, d.get("message", "")[:1500]))
+    eng = sig.get("engine")
+    still = None
+    if eng == "layout" and isinstance(case, dict) and "case" in case and "route" in case:
+        from engines import layout as L
+        L._CASES = [case["case"]]
+        L._INDEX = {L.case_key(case["case"]["m"]): case["case"]}
+        ctx = L.Ctx(case["case"], case.get("idx", 0), int(os.environ.get("VERIF_SEED", "0")))
+        if sig.get("clause") in ("partial-output", "retry-not-whole", "fault-swallowed"):
+            L._SEED = int(os.environ.get("VERIF_SEED", "0"))
+            r = L._fault_one(0)
+            still = bool(r["bad"])
+            print("  now: %s" % (r["bad"][:2] or "no disagreement"))
+        else:
+            res = L.execute(ctx, case["route"])
+            if case["case"]["rejects"]:
+                still = res["outcome"] != "raised" or bool(res["data"])
+            elif res["outcome"] != "ok":
+                still = True
+                print("  now: raised %s" % res["exc"])
+            else:
+                c = L.compare(ctx, case["route"], res, L._INDEX)
+                still = bool(c.bad)
+                print("  now: %s" % (c.bad[:2] or "output agrees with the specification's plan"))
+    elif isinstance(case, dict) and case.get("ini"):
+        # engines that record the complete input text: show what the implementation does with it now
+        import io
+        from lib import boot
+        boot.boot()
+        from atsim.potentials.config import Configuration
+        from atsim.potentials.config._common import ConfigurationException
+        try:
+            tab = Configuration().read(io.StringIO(case["ini"]))
+            out = io.BytesIO() if tab.target.startswith("excel") else io.StringIO()
+            tab.write(out)
+            print("  now: tabulates (%d characters)" % len(out.getvalue()))
+        except ConfigurationException as e:
+            print("  now: configuration error - %s" % str(e)[:300])
+        except Exception as e:
+            print("  now: %s: %s" % (type(e).__name__, str(e)[:300]))
+        print("  (re-run ./check %s for the verdict on this input class)" % prop)
+    else:
+        print("  (the recorded case is shown above; re-run ./check %s for the verdict)" % prop)
+    if still:
+        print("VIOLATION property=%s replay=%s" % (prop, path))
+        return 1
     return 0
 
 
